@@ -32,6 +32,7 @@ T = {"type": "http.response.trailers", "headers": [(b"x-t", b"1")], "more_traile
 P = {"type": "http.response.push", "path": "/pushed", "headers": [(b"x-p", b"1")]}
 EH = {"type": "http.response.early_hint", "links": [b"</style.css>; rel=preload"]}
 U = {"type": "not.a.real.type"}
+EH_LINKS = {"eh-crlf": [b"</a.css>; rel=preload\r\nx-evil: 2"], "eh-nul": [b"</a\x00b>"], "eh-int": [5], "eh-lf-second": [b"</ok>", b"</b>\nx-evil: 3"]}
 HTTP_ALPHABET = [("S", S), ("S2", S2), ("S_TR", S_TR), ("B", B), ("BF", BF), ("BE", BE), ("T", T), ("P", P), ("EH", EH), ("U", U)]
 
 # invalid payloads (for the start message unless noted)
@@ -96,6 +97,12 @@ def gen(rng, tier):
             seqs.append(("http", base, (name, hdrs)))
     seqs.append(("http", (7,), ("push-path-bytes", None)))
     seqs.append(("http", (0, 7, 4), ("push-path-bytes", None)))
+    # what else of the application's ends up in a header block: the links of an early hint (link header values), the path of a push (:path)
+    for nm_ in EH_LINKS:
+        seqs.append(("http", (8,), (nm_, None)))
+        seqs.append(("http", (8, 0, 4), (nm_, None)))
+    seqs.append(("http", (7,), ("push-path-crlf", None)))
+    seqs.append(("http", (0, 7, 4), ("push-path-crlf", None)))
     wseqs = []
     for L in range(1, maxlen + 1):
         for combo in itertools.product(range(len(WS_ALPHABET)), repeat=L):
@@ -122,7 +129,15 @@ def gen(rng, tier):
                     if sub[0] == "push-path-bytes" and nm == "P":
                         m["path"] = b"/bytes-path"
                         done_sub = True
-                    elif sub[0] != "push-path-bytes" and nm in ("S", "S2", "S_TR", "T", "P"):
+                    elif sub[0] == "push-path-crlf" and nm == "P":
+                        m["path"] = "/p\r\nx-evil: 2"
+                        done_sub = True
+                    elif sub[0] in EH_LINKS and nm == "EH":
+                        m["links"] = EH_LINKS[sub[0]]
+                        done_sub = True
+                    elif sub[0] in EH_LINKS or sub[0] == "push-path-crlf":
+                        pass
+                    elif sub[0] != "push-path-bytes" and sub[1] is not None and nm in ("S", "S2", "S_TR", "T", "P"):
                         m["headers"] = sub[1]
                         done_sub = True
                 msgs.append((nm, m))
@@ -270,7 +285,7 @@ def http_automaton(msgs, proto, te, final_state=False):
                 verdict = "unjudged"
         elif t == "http.response.push":
             if proto == "h2":
-                if not isinstance(m.get("path"), str) or not _hdrs_ok(m.get("headers", [])):
+                if not isinstance(m.get("path"), str) or not _hdrs_ok(m.get("headers", [])) or _ctl(m["path"].encode("latin-1", "replace")):
                     verdict = "invalid"
                 else:
                     verdict = "unjudged" if state not in ("REQUEST", "RESPONSE") else "valid"
@@ -287,6 +302,8 @@ def http_automaton(msgs, proto, te, final_state=False):
                     state = "CLOSED"
         elif t == "http.response.early_hint":
             verdict = "unjudged"
+            if proto == "h2" and state == "REQUEST" and any(not isinstance(l_, (bytes, bytearray, memoryview)) or _ctl(bytes(l_)) for l_ in m.get("links", [])):
+                verdict = "invalid"  # a link is a header value: not bytes, or CR/LF/NUL in it"
         if verdict == "unjudged" and t not in ("http.response.early_hint",):
             state = "UNKNOWN" if state != "CLOSED" else state
         out.append(verdict)
@@ -319,6 +336,8 @@ def ws_automaton(msgs):
                     state = "CONNECTED"
                 else:
                     verdict = "invalid"
+            elif state == "HS_PENDING":
+                verdict = "invalid"  # the application has begun a response of its own: accepting is no longer possible
             else:
                 verdict = "unjudged"
         elif t == "websocket.send":
@@ -344,6 +363,8 @@ def ws_automaton(msgs):
             if state == "HANDSHAKE":
                 verdict = "unjudged" if not _hdrs_ok(m.get("headers", [])) else "valid"
                 state = "HS_PENDING" if verdict == "valid" else "HS_PENDING_BAD"
+            elif state == "HS_PENDING":
+                verdict = "invalid"  # "a second response start"
             else:
                 verdict = "unjudged"
         elif t == "websocket.http.response.body":
@@ -494,6 +515,9 @@ def check(case, obs, tally):
                 out.append({"clause": "wire-prefix", "sig": "C12.wire/h2/connection-poisoned",
                             "detail": "after the sequence %r (%s) a later request on the same connection was not answered decodably: %r" % (
                                 t["seq"], t["sub"], None if pr is None else (pr.status, bytes(pr.data)[:20], pr.ended, pr.rst))})
+    if t["proto"] == "h2":
+        for pev in obs.reactor.pushes:
+            heads.extend(pev.get("headers") or [])
     tally.clause("ctl-bytes")
     for nme, v in heads:
         if _ctl(nme) or _ctl(v):
